@@ -56,6 +56,12 @@ def run(F, rep, tier):
             rep.violation("validate|return-source", "K2 polarity", "unrecognised source of validate()'s return value", v.site(s.line))
             return
         if o.const is not None:
+            # a tracer-internal error (trace() returned Err) is not "a failure was reported": the
+            # property does not say which way it must go, so either constant is accepted there
+            tr = [c for c in v.calls if c.name == "trace"]
+            te = v.outcome_edges(tr[0]).get("Err") if len(tr) == 1 else None
+            if te is not None and v.dominates(te[1], s.bb):
+                continue
             consts.append((s, o.val))
         elif o.place is not None and not o.place.proj:
             var = o.place.local
